@@ -11,6 +11,8 @@ import numpy as np
 
 LEAN_TARGETS = ["YProofs.Props.C19", "YProofs.Props.C19Leg"]
 LEVEL = "proof"
+TRANSLATORS = ["gen_sym"]
+DRIVER = "drv_c19"
 
 EXPECTED = {"dense": [], "Z2": [2], "Z3": [3], "U1": [0], "U1xU1": [0, 0], "Z2xU1": [2, 0], "U1xU1xZ2": [0, 0, 2]}
 
